@@ -219,7 +219,8 @@ def check_set(sec, items):
             back = H.parse_set_header(text())
             return list(back), back.as_set(), len(back)
         exp_lower = {x.lower() for x in items}
-        guarded(sec, "set_roundtrip", dict(inp, via=how), run_, (list(items), exp_lower, len(exp_lower)), sig)
+        # the law is parse(dump(hs)) == hs: what is compared is the set's own content (one spelling per header)
+        guarded(sec, "set_roundtrip", dict(inp, via=how), run_, (list(hs), exp_lower, len(exp_lower)), sig)
 
 
 # 3. dicts
